@@ -140,3 +140,4 @@ pub use self::{
 
 pub type IdentTopic = Topic<self::topic::IdentityHash>;
 pub type Sha256Topic = Topic<self::topic::Sha256Hash>;
+#[cfg(libp2p_verif)] #[doc(hidden)] pub use self::behaviour::verif_gs_node;
